@@ -385,3 +385,79 @@ def falsify_C01(ctx):
     return {"cases": cases, "nontrivial": len(nontrivial),
             "rule": "random task sets with distinct priorities x analysed priority level x the four preemption models; blocking bound = longest lower-priority segment - 1; dense admissible releases (synchronous, phased, a lower-priority job started one tick earlier), WCET and random execution times, random legal placement of non-preemptive regions and random tie-breaks; simulated response times of the analysed task vs the real bound; non-trivial = distinct (system, scenario)",
             "counterexamples": cex, "samples": samples, "distribution": dist}
+
+
+def falsify_C02(ctx):
+    rng = random.Random(ctx["seed"] * 7919 + 2)
+    n = 300 if ctx["tier"] == "quick" else 20000
+    cex, samples, nontrivial = [], [], set()
+    cases = 0
+    dist = {}
+    for it in range(n):
+        tasks = gen_sched_system(rng, "edf")
+        if rng.random() < 0.15:
+            for t in tasks:
+                t["D"] = tasks[0]["D"]          # equal deadlines: ties everywhere
+        i = rng.randrange(len(tasks))
+        kind = wchoice(rng, [(1, "edf_p"), (1, "edf_np"), (1, "edf_lp"), (1, "edf_fl")])
+        tua = tasks[i]
+        oth = [t for ti, t in enumerate(tasks) if ti != i]
+        if kind == "edf_p":
+            op = f"edf_p rbf {gen.arr_str(tua['arr'])} sc {tua['C']} {tua['D']} {len(oth)}" + \
+                "".join(f" rbf {gen.arr_str(t['arr'])} sc {t['C']} {t['D']}" for t in oth) + " 3000"
+        elif kind == "edf_np":
+            op = f"edf_np {gen.arr_str(tua['arr'])} {tua['C']} {tua['D']} {len(oth)}" + \
+                "".join(f" {gen.arr_str(t['arr'])} {t['C']} {t['D']}" for t in oth) + " 3000"
+        elif kind == "edf_lp":
+            op = f"edf_lp {gen.arr_str(tua['arr'])} {tua['C']} {tua['D']} {tua['seg']} {len(oth)}" + \
+                "".join(f" rbf {gen.arr_str(t['arr'])} sc {t['C']} {t['D']} {t['seg']}" for t in oth) + " 3000"
+        else:
+            op = f"edf_fl rbf {gen.arr_str(tua['arr'])} sc {tua['C']} {tua['D']} {len(oth)}" + \
+                "".join(f" rbf {gen.arr_str(t['arr'])} sc {t['C']} {t['D']} {t['seg']}" for t in oth) + " 3000"
+        r = real([op])[0]
+        cases += 1
+        dist[kind] = dist.get(kind, 0) + 1
+        if not r.startswith("ok "):
+            continue
+        R = int(r.split()[1])
+        worst = 0
+        for rep in range(4):
+            mode = "wcet" if rep < 3 else "random"
+            jobsets = [sim.task_jobs(t["arr"], ("sc", t["C"]), rng.randint(2, 9), rng, mode) for t in tasks]
+            if rep % 2 == 0:
+                jobsets = sync(jobsets)
+                if rep == 0 and len(tasks) > 1:
+                    # the task with the latest deadline starts one tick before everyone else
+                    late = max(range(len(tasks)), key=lambda ti: tasks[ti]["D"])
+                    jobsets = [[(rl + (0 if ti == late else 1), c) for rl, c in js] for ti, js in enumerate(jobsets)]
+            jobs = []
+            for ti, js in enumerate(jobsets):
+                for rl, c in js:
+                    t = tasks[ti]
+                    if kind == "edf_p":
+                        npset = set()
+                    elif kind == "edf_np":
+                        npset = sim.make_np(c, "np", 0, rng)
+                    elif kind == "edf_lp":
+                        npset = sim.make_np(c, "lp", t["seg"], rng, last=(t["seg"] if ti == i else None))
+                    else:
+                        npset = sim.make_np(c, "fl", t["seg"], rng)
+                    jobs.append({"rel": rl, "cost": c, "np": npset, "task": ti, "dl": rl + t["D"]})
+            if not any(j["task"] == i for j in jobs):
+                continue
+            rts = sim.simulate(jobs, lambda j: j["dl"], rng)
+            nontrivial.add((op, rep, len(jobs)))
+            for j, rt in zip(jobs, rts):
+                if j["task"] != i:
+                    continue
+                if rt is None or rt > R:
+                    cex.append({"kind": "edf_bound_exceeded", "op": op, "impl": r, "observed_response": rt, "variant": kind,
+                                "jobs": [(x["rel"], x["cost"], x["task"], sorted(x["np"])) for x in jobs],
+                                "multiframe_not_accumulatively_monotonic": False})
+                    break
+                worst = max(worst, rt)
+        if len(samples) < 4 and worst > 0 and len(tasks) >= 2:
+            samples.append({"op": op, "bound": R, "worst_simulated_response": worst})
+    return {"cases": cases, "nontrivial": len(nontrivial),
+            "rule": "random task sets x analysed task x the four EDF preemption models x arbitrary relative deadlines (also equal ones: ties everywhere); dense admissible releases (synchronous, phased, the latest-deadline task started one tick earlier), WCET and random execution times, random legal placement of non-preemptive regions, random tie-breaks among equal absolute deadlines; simulated response times vs the real bound; non-trivial = distinct (system, scenario)",
+            "counterexamples": cex, "samples": samples, "distribution": dist}
